@@ -2,22 +2,30 @@
   agemodel — line-protocol driver. One request per line on stdin:
   `<op> <arg> <arg> ...` (bytes in hex, `-` = empty); one reply line per request.
   Runs the same definitions the theorems are about, instantiated with the
-  concrete primitives of AgeModel.Crypto.
+  concrete primitives of AgeModel.Crypto. Each model area owns one
+  AgeModel/Exec/<Area>Exec.lean with a `handle` function.
 -/
 import AgeModel.Exec.StreamExec
+import AgeModel.Exec.FormatExec
+import AgeModel.Exec.FileExec
+import AgeModel.Exec.ArmorExec
+import AgeModel.Exec.Bech32Exec
+import AgeModel.Exec.PluginExec
+import AgeModel.Exec.CliExec
+import AgeModel.Exec.KeyFileExec
+import AgeModel.Exec.SshEncExec
 open AgeModel
+
+def handlers : List (String → List String → Option String) :=
+  [Exec.Stream.handle, Exec.Format.handle, Exec.File.handle, Exec.Armor.handle, Exec.Bech32.handle,
+   Exec.Plugin.handle, Exec.Cli.handle, Exec.KeyFile.handle, Exec.SshEnc.handle]
 
 def dispatch (line : String) : String :=
   match Wire.splitOn line.trimAscii.toString ' ' with
   | [] => "bad-op"
   | op :: args =>
-    match op with
-    | "ping" => "pong"
-    | "sw" => Exec.sw args
-    | "sr" => Exec.sr args
-    | "senc" => Exec.senc args
-    | "sdec" => Exec.sdec args
-    | _ => "bad-op"
+    if op = "ping" then "pong"
+    else (handlers.findSome? fun h => h op args).getD "bad-op"
 
 partial def loop (hin hout : IO.FS.Stream) : IO Unit := do
   let line ← hin.getLine
